@@ -11,10 +11,13 @@ import (
 	"encoding/json"
 	"errors"
 	"fmt"
+	"math/rand"
 	"os"
 	"sort"
+	"strconv"
 	"sync"
 	"testing"
+	"time"
 
 	sentinel "github.com/alibaba/sentinel-golang/api"
 	"github.com/alibaba/sentinel-golang/core/base"
@@ -157,6 +160,29 @@ func VHit(outcome string) error {
 	return nil
 }
 
+// VAwaitExit waits (bounded) until an admitted entry has been exited: for frameworks whose "after the
+// response" hooks run on another goroutine (gear).  Global-chain mode only.
+func VAwaitExit() {
+	deadline := time.Now().Add(2 * time.Second)
+	for time.Now().Before(deadline) {
+		vrec.mu.Lock()
+		pass, exit := 0, 0
+		for _, e := range vrec.events {
+			switch e {
+			case "pass":
+				pass++
+			case "complete", "complete-err":
+				exit++
+			}
+		}
+		vrec.mu.Unlock()
+		if exit >= pass {
+			return
+		}
+		time.Sleep(time.Millisecond)
+	}
+}
+
 // VFallback is called by every custom block fallback of the drivers.
 func VFallback() { vrec.driver("fallback") }
 
@@ -184,6 +210,8 @@ type VCase struct {
 	Send func(blocked bool, outcome string) (rejected bool)
 	// Outcomes the handler type can express (default: ok, err, panic)
 	Outcomes []string
+	// Last: run after every other case (the case changes process-wide state)
+	Last bool
 }
 
 var vOut *json.Encoder
@@ -245,7 +273,20 @@ func VRun(t *testing.T, adapter string, cases []VCase) {
 	}
 	vEmit(map[string]interface{}{"op": "registry", "adapter": adapter, "eps": vKeys(eps), "options": vKeys(opts)})
 
-	for round := 0; round < 3; round++ {
+	// VERIF_ROUNDS rounds; within a round the requests are sent in an order seeded by VERIF_SEED
+	rounds, _ := strconv.Atoi(os.Getenv("VERIF_ROUNDS"))
+	if rounds <= 0 {
+		rounds = 3
+	}
+	seed, _ := strconv.ParseInt(os.Getenv("VERIF_SEED"), 10, 64)
+	rng := rand.New(rand.NewSource(seed))
+	type one struct {
+		c       VCase
+		blocked bool
+		oc      string
+	}
+	for round := 0; round < rounds; round++ {
+		var first, last []one
 		for _, c := range cases {
 			outcomes := c.Outcomes
 			if outcomes == nil {
@@ -253,9 +294,20 @@ func VRun(t *testing.T, adapter string, cases []VCase) {
 			}
 			for _, blocked := range []bool{false, true} {
 				for _, oc := range outcomes {
-					vOne(adapter, c, blocked, oc)
+					if c.Last {
+						last = append(last, one{c, blocked, oc})
+					} else {
+						first = append(first, one{c, blocked, oc})
+					}
 				}
 			}
+		}
+		if round > 0 {
+			rng.Shuffle(len(first), func(i, j int) { first[i], first[j] = first[j], first[i] })
+			rng.Shuffle(len(last), func(i, j int) { last[i], last[j] = last[j], last[i] })
+		}
+		for _, o := range append(first, last...) {
+			vOne(adapter, o.c, o.blocked, o.oc)
 		}
 	}
 }
